@@ -73,7 +73,12 @@ def insert : Table → Addr → Entry → Table
 def ageAt (c : Cfg) (now tst : Nat) : Nat :=
   if c.v.msClock then TST.age (now % W) tst else TST.ageOld now tst
 
-def fresh (c : Cfg) (now : Nat) (e : Entry) : Bool := decide (ageAt c now e.pv.tst ≤ c.lifetimeMs)
+/-- keep-condition of `refresh_table`: an entry without PV (Location Service placeholder) has no age and is
+kept exactly while its LS is pending; otherwise the PV must not be older than the lifetime.
+(Before the repair every entry was aged by its - possibly default 0 - timestamp.) -/
+def fresh (c : Cfg) (now : Nat) (e : Entry) : Bool :=
+  if c.v.msClock && !e.hasPV then e.lsPending
+  else decide (ageAt c now e.pv.tst ≤ c.lifetimeMs)
 
 /-- `refresh_table` -/
 def refresh (c : Cfg) (t : Table) (now : Nat) : Table := t.filter (fun ke => fresh c now ke.2)
@@ -98,28 +103,29 @@ def Kind.singleHop : Kind → Bool
 inductive Res | ok | dup | dad
 deriving DecidableEq, Repr
 
-/-- one reception: `duplicate_address_detection` then `LocationTable.new_<kind>_packet`.
+/-- the per-entry part of `new_<kind>_packet` after get-or-create (`old = none`: entry just created):
+DPD (multi-hop kinds only), PV update, DPL push, neighbour rule.
 `dup` = `DuplicatedPacketException` (raised before any update and before the closing purge). -/
+def entryStep (c : Cfg) (old : Option Entry) (k : Kind) (p : PV) (sn : Nat) : Entry × Res :=
+  match old with
+  | some e =>
+    if k.singleHop then ({ updPV c e p with isNeighbour := true }, .ok)
+    else if e.dpl.contains sn then (e, .dup)
+    else
+      let e1 := updPV c { e with dpl := dplPush c.dplLen e.dpl sn } p
+      (if k = .gbc ∧ c.v.gbcKeepsNb = false then { e1 with isNeighbour := false } else e1, .ok)
+  | none =>
+    if k.singleHop then ({ updPV c {} p with isNeighbour := true }, .ok)
+    else ({ updPV c { dpl := dplPush c.dplLen [] sn } p with isNeighbour := false }, .ok)
+
+/-- one reception: `duplicate_address_detection`, then `LocationTable.new_<kind>_packet`
+(= purge, get-or-create, `entryStep`, purge). -/
 def recv (c : Cfg) (t : Table) (k : Kind) (a : Addr) (p : PV) (sn now : Nat) : Table × Res :=
   if mid a = mid c.self then (t, .dad)
   else
     let t0 := if c.v.prePurge then refresh c t now else t
-    match lookup t0 a with
-    | some e =>
-      if k.singleHop then
-        (refresh c (insert t0 a { updPV c e p with isNeighbour := true }) now, .ok)
-      else if e.dpl.contains sn then (t0, .dup)
-      else
-        let e1 := updPV c { e with dpl := dplPush c.dplLen e.dpl sn } p
-        let e2 := if k = .gbc ∧ c.v.gbcKeepsNb = false then { e1 with isNeighbour := false } else e1
-        (refresh c (insert t0 a e2) now, .ok)
-    | none =>
-      let e : Entry := {}
-      if k.singleHop then
-        (refresh c (insert t0 a { updPV c e p with isNeighbour := true }) now, .ok)
-      else
-        let e1 := updPV c { e with dpl := dplPush c.dplLen e.dpl sn } p
-        (refresh c (insert t0 a { e1 with isNeighbour := false }) now, .ok)
+    let r := entryStep c (lookup t0 a) k p sn
+    if r.2 = .dup then (t0, .dup) else (refresh c (insert t0 a r.1) now, .ok)
 
 /-- `ensure_entry(a).ls_pending = True` (`gn_ls_request`) -/
 def ensure (t : Table) (a : Addr) : Table :=
